@@ -501,7 +501,11 @@ func c19Body(w *core.W, c *DateCase) {
 			bad("now-error", "a time", fmt.Sprint(pv, err, show(v)), "now()")
 			return
 		}
-		if got.Before(t0.Add(-2*time.Millisecond)) || got.After(t1.Add(2*time.Millisecond)) {
+		slack := 2 * time.Millisecond // (the real clock may be stepped; the virtual clock's readings are strictly ordered)
+		if c19InVirtual {
+			slack = 0
+		}
+		if got.Before(t0.Add(-slack)) || got.After(t1.Add(slack)) {
 			bad("now-outside-bracket", fmt.Sprintf("[%s, %s]", t0.Format(time.RFC3339Nano), t1.Format(time.RFC3339Nano)), got.Format(time.RFC3339Nano), "now()")
 		}
 	case "toDay":
@@ -713,8 +717,14 @@ func runC19(w *core.W) {
 			u = 1
 		}
 		ns := int64(0)
-		if i%3 == 0 {
+		switch i % 3 {
+		case 0:
 			ns = 999999000
+		case 1:
+			ns = 1 + (u*7919+int64(i)*104729)%999999999 // any nanosecond: now() is the clock's reading, not a rounding of it
+			if ns < 0 {
+				ns = -ns
+			}
 		}
 		run(&DateCase{Fn: "now", Unix: u, Nsec: ns})
 		run(&DateCase{Fn: "toDay", Unix: u, Nsec: ns})
